@@ -340,6 +340,82 @@ func TestVerifC12(t *testing.T) {
 			rep.Sample(map[string]interface{}{"descriptor_of": s.name, "descriptor_bytes": len(db), "metadata_envelopes_tried": len(metaEnvs), "message_envelopes_tried": len(msgEnvs)})
 		}
 	}
+	// ---- the service boundary: the same protected fields through the MultiMemberGroupJoin RPC ------------------------------
+	{
+		tp, cleanup := NewTestingProtocol(ctx, t, &TestingOpts{}, nil)
+		svc, ok := tp.Service.(*service)
+		if !ok {
+			rep.Inconclusivef("testing protocol does not expose *service")
+		} else {
+			acct := svc.getAccountGroup()
+			for iv := 0; iv < 2 && acct != nil; iv++ {
+				g, _, _ := NewGroupMultiMember()
+				other, _, _ := NewGroupMultiMember()
+				raw, _ := proto.Marshal(g)
+				type rc struct {
+					id string
+					g  *protocoltypes.Group
+				}
+				var cands []rc
+				for _, gt := range []int32{0, 1, 2, 4, 99, -1} {
+					c := proto.Clone(g).(*protocoltypes.Group)
+					c.GroupType = protocoltypes.GroupType(gt)
+					cands = append(cands, rc{fmt.Sprintf("rpc/group-type/%d", gt), c})
+				}
+				for _, m := range []struct {
+					id string
+					f  func(c *protocoltypes.Group)
+				}{
+					{"rpc/remove/secret_sig", func(c *protocoltypes.Group) { c.SecretSig = nil }},
+					{"rpc/remove/secret", func(c *protocoltypes.Group) { c.Secret = nil }},
+					{"rpc/secret=other-group", func(c *protocoltypes.Group) { c.Secret = other.Secret }},
+					{"rpc/sig=other-group", func(c *protocoltypes.Group) { c.SecretSig = other.SecretSig }},
+					{"rpc/identifier=other-group", func(c *protocoltypes.Group) { c.PublicKey = other.PublicKey }},
+				} {
+					c := proto.Clone(g).(*protocoltypes.Group)
+					m.f(c)
+					cands = append(cands, rc{m.id, c})
+				}
+				for k := 0; k < 40; k++ {
+					b := rng.Intn(len(raw) * 8)
+					f := append([]byte(nil), raw...)
+					f[b/8] ^= 1 << uint(b%8)
+					c := &protocoltypes.Group{}
+					if proto.Unmarshal(f, c) == nil && c12Differs(g, c) {
+						cands = append(cands, rc{fmt.Sprintf("rpc/bitflip/%d", b), c})
+					}
+				}
+				for _, c := range cands {
+					before := acct.MetadataStore().OpLog().Len()
+					var jerr error
+					if pnc, stack := verifkit.Try(func() {
+						_, jerr = svc.MultiMemberGroupJoin(ctx, &protocoltypes.MultiMemberGroupJoin_Request{Group: c.g})
+					}); pnc != nil {
+						rep.Violate("C12/panic/join", fmt.Sprintf("MultiMemberGroupJoin panicked: %v", pnc), map[string]interface{}{"manipulation": c.id, "stack": stack})
+						continue
+					}
+					rep.Case(fmt.Sprintf("rpc-inv%d/%s", iv, c.id))
+					if jerr == nil {
+						rep.Violate("C12/altered-invitation-accepted/"+classOfForgery(c.id)+"/"+c.id, "the join RPC accepted an invitation whose identifier, secret, signature or group type was altered", map[string]interface{}{"manipulation": c.id})
+						if pk, err := c.g.GetPubKey(); err == nil {
+							_, _ = acct.MetadataStore().GroupLeave(ctx, pk)
+						}
+					} else {
+						rep.Count("altered_refused_by_rpc", 1)
+						if acct.MetadataStore().OpLog().Len() != before {
+							rep.Violate("C12/refused-but-appended", "a refused invitation left an entry in the account log (RPC)", c.id)
+						}
+					}
+				}
+				if _, err := svc.MultiMemberGroupJoin(ctx, &protocoltypes.MultiMemberGroupJoin_Request{Group: g}); err != nil {
+					rep.Violate("C12/valid-invitation-refused", "RPC: "+err.Error(), iv)
+				} else {
+					rep.Count("valid_joined_by_rpc", 1)
+				}
+			}
+		}
+		cleanup()
+	}
 	if rep.Counter("valid_joined") == 0 || rep.Counter("altered_refused") == 0 || rep.Counter("descriptor_refusals") == 0 {
 		rep.Inconclusivef("controls missing: valid_joined=%d altered_refused=%d descriptor_refusals=%d", rep.Counter("valid_joined"), rep.Counter("altered_refused"), rep.Counter("descriptor_refusals"))
 	}
